@@ -8,8 +8,9 @@ from genlib import *
 
 LEAN_MODULES = ["MpirProofs.Props.C05_ptr2"]
 THEOREMS = ["Mpir.AliasMem.rootrem_ptr_spec", "Mpir.AliasMem.rootrem_exceptions",
-            "Mpir.AliasMem.mpz_mul_ptr_spec"]
-PINS = [("mpz/mul.c", None), ("gmp-mparam.h", "MUL_KARATSUBA_THRESHOLD")]
+            "Mpir.AliasMem.mpz_mul_ptr_spec", "Mpir.AliasMem.gcdext_ptr_spec"]
+PINS = [("mpz/mul.c", None), ("gmp-mparam.h", "MUL_KARATSUBA_THRESHOLD"), ("mpz/gcdext.c", None), ("mpz/powm.c", None), ("mpz/powm_ui.c", None),
+        ("mpz/aorsmul.c", None), ("mpz/aorsmul_i.c", None), ("mpf/div.c", None), ("mpf/mul.c", None), ("mpf/sqrt.c", None), ("mpf/div_ui.c", None)]
 TRUSTED = ["hand-written pointer-level models lean/Mpir/Model/AliasMul.lean (tied by the ops alias_mul … of harness/ops_alias2.c on every "
            "index assignment: values, ALLOC and which blocks were replaced; source pins on mul.c and MUL_KARATSUBA_THRESHOLD)"]
 ASSUMPTIONS = ["pointer-level model: mpn_mul / mpn_mul_basecase / mpn_sqr / mpn_mul_1 are taken at their contract on values (limb-level proofs: C01); "
